@@ -34,6 +34,13 @@ pub struct Case {
     pub singles: Vec<usize>,
     pub phase: Option<Phase>,
     pub singles_after: Vec<usize>,
+    /// false: the encoder's output does not end in a line break (the statement speaks of whole records, not of lines)
+    #[serde(default = "yes")]
+    pub terminated: bool,
+}
+
+fn yes() -> bool {
+    true
 }
 
 fn len_strategy() -> impl Strategy<Value = usize> {
@@ -60,8 +67,9 @@ pub fn strategy() -> impl Strategy<Value = Case> {
         prop::collection::vec(len_strategy(), 0..=8),
         prop::option::weighted(0.5, phase),
         prop::collection::vec(len_strategy(), 0..=3),
+        prop::bool::weighted(0.7),
     )
-        .prop_map(|(pre_kind, pre_len, append_mode, chunks, singles, phase, singles_after)| Case { pre_kind, pre_len, append_mode, chunks, singles, phase, singles_after })
+        .prop_map(|(pre_kind, pre_len, append_mode, chunks, singles, phase, singles_after, terminated)| Case { pre_kind, pre_len, append_mode, chunks, singles, phase, singles_after, terminated })
 }
 
 /// Multi-chunk encoder which can park *inside* the appender's critical section.
@@ -146,10 +154,12 @@ fn check_in(dir: &Path, case: &Case, obs: &mut Obs) -> CaseResult {
     let mut expected: Vec<u8> = if case.append_mode { pre.clone() } else { vec![] };
     let at_open = std::fs::read(&path).unwrap_or_default();
     ensure!(at_open == expected, "C04:open-mode", "right after build (append={}): file holds {} bytes, expected {} (pre-existing {})", case.append_mode, at_open.len(), expected.len(), pre.len());
+    let terminated = case.terminated;
+    let rec_text = move |tid: u16, seq: u32, len: usize| if terminated { record_text(tid, seq, len) } else { record_text_unterminated(tid, seq, len) };
     let mut seq = 0u32;
     let mut big = false;
     let single = |len: usize, seq: &mut u32, expected: &mut Vec<u8>, obs: &mut Obs| -> CaseResult {
-        let text = record_text(0, *seq, len);
+        let text = rec_text(0, *seq, len);
         *seq += 1;
         match catch(|| append_msg(&app, &text)) {
             Err(p) => return fail("C04:panic", format!("append panicked: {}", p)),
@@ -198,11 +208,11 @@ fn check_in(dir: &Path, case: &Case, obs: &mut Obs) -> CaseResult {
                         }
                         let Ok(h) = std::str::from_utf8(&tail[i + 13..i + 21]) else { return Err(format!("garbage at offset {} during the concurrent phase", i)) };
                         let Ok(len) = usize::from_str_radix(h, 16) else { return Err(format!("garbage header at offset {} during the concurrent phase", i)) };
-                        let end = i + HEADER_LEN + len;
+                        let end = i + HEADER_LEN + len - if terminated { 0 } else { 1 };
                         if end > tail.len() {
                             break;
                         }
-                        match parse_stream(&tail[i..end]) {
+                        match parse_stream_with(&tail[i..end], terminated) {
                             Ok(mut r) => recs.append(&mut r),
                             Err(_) => return Err(format!("a corrupted/interleaved record at offset {} was visible during the concurrent phase", i)),
                         }
@@ -231,7 +241,7 @@ fn check_in(dir: &Path, case: &Case, obs: &mut Obs) -> CaseResult {
                 std::thread::sleep(Duration::from_micros(50 * stagger as u64));
                 for (s, l) in lens.iter().enumerate() {
                     about.fetch_add(1, Ordering::SeqCst);
-                    append_msg(&*app, &record_text(ti as u16 + 1, s as u32, *l)).map_err(|e| e.to_string())?;
+                    append_msg(&*app, &rec_text(ti as u16 + 1, s as u32, *l)).map_err(|e| e.to_string())?;
                     published[ti].store(s as u32 + 1, Ordering::SeqCst);
                 }
                 Ok(())
@@ -258,7 +268,7 @@ fn check_in(dir: &Path, case: &Case, obs: &mut Obs) -> CaseResult {
         let bytes = std::fs::read(&path).unwrap_or_default();
         ensure!(bytes.len() >= base_len && bytes[..base_len] == expected[..], "C04:content", "the content written before the concurrent phase changed");
         let tail = &bytes[base_len..];
-        let recs = parse_stream(tail).map_err(|off| Failure { sig: "C04:interleaved".into(), msg: format!("after joining {} writer threads the file is not a concatenation of whole records: first bad offset {} of {} (records were interleaved, truncated or corrupted)", ph.threads.len(), off, tail.len()) })?;
+        let recs = parse_stream_with(tail, terminated).map_err(|off| Failure { sig: "C04:interleaved".into(), msg: format!("after joining {} writer threads the file is not a concatenation of whole records: first bad offset {} of {} (records were interleaved, truncated or corrupted)", ph.threads.len(), off, tail.len()) })?;
         let mut want: Vec<RecId> = vec![];
         for (ti, lens) in ph.threads.iter().enumerate() {
             for (s, l) in lens.iter().enumerate() {
@@ -279,7 +289,7 @@ fn check_in(dir: &Path, case: &Case, obs: &mut Obs) -> CaseResult {
         // single-threaded appends after the phase, through the same appender
         let app = Arc::try_unwrap(app).map_err(|_| Failure { sig: "C04:harness".into(), msg: "appender still shared".into() })?;
         for len in &case.singles_after {
-            let text = record_text(0, seq, *len);
+            let text = rec_text(0, seq, *len);
             seq += 1;
             append_msg(&app, &text).map_err(|e| Failure { sig: "C04:append-error".into(), msg: e.to_string() })?;
             expected.extend_from_slice(text.as_bytes());
@@ -294,6 +304,7 @@ fn check_in(dir: &Path, case: &Case, obs: &mut Obs) -> CaseResult {
     obs.class_if(!pre.is_empty() && case.append_mode, "pre-existing-kept");
     obs.class_if(!pre.is_empty() && !case.append_mode, "pre-existing-truncated");
     obs.class_if(case.chunks.is_some(), "multi-chunk-encoder");
+    obs.class_if(!case.terminated, "records-without-trailing-newline");
     Ok(())
 }
 
